@@ -8,7 +8,7 @@ from mirsmt.prove import Prover
 from . import deltalib, parallel
 
 QUICK = [(0, 3, 2), (3, 0, 2), (2, 2, 1), (4, 4, 2), (5, 5, 2), (3, 6, 2), (6, 3, 2), (6, 6, 3), (4, 7, 3), (5, 6, 4), (6, 6, 2)]
-THOROUGH = QUICK + [(7, 7, 2), (8, 8, 2), (8, 8, 3), (9, 7, 3), (7, 9, 3), (8, 8, 4), (9, 9, 3), (10, 10, 4), (10, 10, 5), (6, 10, 2), (10, 6, 2), (3, 3, 1), (5, 5, 1)]
+THOROUGH = QUICK + [(7, 7, 2), (8, 8, 2), (8, 8, 3), (9, 7, 3), (7, 9, 3), (8, 8, 4), (9, 9, 3), (10, 10, 4), (10, 10, 5), (6, 8, 2), (10, 6, 2), (3, 3, 1), (5, 5, 1)]
 
 
 def instance(R, pid, tier, seed, bl, sl, bs, which, tag):
